@@ -71,10 +71,20 @@ seq = unit("H06-seq", "a call that fails half-way (encode: invalid RawMessage / 
            {"vfMode": {"all": "0..6"}, "vfFlags": {"quick": [2, 0], "thorough": [0, 1, 2, 3]}}, ["done"])
 c06["units"].append(seq)
 c14["units"].append(dict(seq, name="H14-seq"))
+def quick_only(spec, keep=()):
+    # thorough tier = quick tier except for the named units (the thorough bounds of the others did not finish in 20 min)
+    for u in spec["units"]:
+        if u["name"] in keep:
+            continue
+        for k, v in u.get("grid", {}).items():
+            if "all" not in v:
+                u["grid"][k] = {"quick": v["quick"], "thorough": v["quick"]}
 CAPPED = {"C03", "C07", "C01", "C14", "C06"}  # thorough tier bounded to one deepened variable per unit (see cap_thorough.py)
 for fn, spec in (("C01", c01), ("C15", c15), ("C14", c14), ("C06", c06)):
     if fn in CAPPED:
         cap_spec(spec)
+    if fn == "C14":
+        quick_only(spec, keep=("H14-num-free", "H14-enc-basic", "H14-enc-maps", "H14-enc-fastmaps", "H14-dec-basic", "H14-dec-fastmaps", "H14-seq"))
     fix_bytes(spec)
     json.dump(spec, open(os.path.join(root, "spec", fn + ".json"), "w"), indent=1)
 print("ok")
